@@ -20,9 +20,16 @@ for f in sorted(glob.glob(str(V / ".work" / "thorough" / "*" / "*.json"))):
             bad.pop(h["harness"], None)
         elif h["harness"] not in ok:
             bad[h["harness"]] = "%s (%s s)" % (h["verdict"], h["time_s"])
+import sys
+sys.path.insert(0, str(V))
+import harnesses as HT
+HT._load()
+existing = {e["name"] for e in HT._ENTRIES}
+ok = {k: v for k, v in ok.items() if k in existing}
+bad = {k: v for k, v in bad.items() if k in existing}
 p = V / "thorough_verified.json"
 old = json.loads(p.read_text()) if p.exists() else {"verified": [], "not_verified": {}}
-names = sorted(set(old["verified"]) | set(ok))
-nv = {k: v for k, v in {**old.get("not_verified", {}), **bad}.items() if k not in names}
+names = sorted((set(old["verified"]) | set(ok)) & existing)
+nv = {k: v for k, v in {**old.get("not_verified", {}), **bad}.items() if k not in names and k in existing}
 p.write_text(json.dumps({"verified": names, "not_verified": nv}, indent=0, sort_keys=True))
 print(len(names), "verified thorough instances;", len(nv), "not verified")
